@@ -258,6 +258,18 @@ def cas_simplify(stack):
         return "raise:" + type(exc).__name__, None
 
 
+def port_says_overflow(ctx, stack):
+    """exact classifier of the int64-wrap finding F3b: the Lean port of the CAS re-runs the simplification in strict mode
+    and reports whether some int64 operation wrapped to a different value (`ovf=1`); needs the driver"""
+    if not ctx.driver_ok:
+        return False
+    try:
+        o = run_driver([f"simplifyr ; {stack_str(stack)}"], timeout=120)[0]
+    except Exception:
+        return False
+    return "ovf=1" in o
+
+
 def cas_oracle(ctx, rep, st, D, case):
     rng = ctx.rng
     status, out = cas_simplify(st)
@@ -328,7 +340,7 @@ def cas_oracle(ctx, rep, st, D, case):
         if bad is None:
             rep.count("cas_point", "agree")
         else:
-            key = "C03:F3b-int64-wrap" if ovf else "C03:cas-value"
+            key = "C03:F3b-int64-wrap" if (ovf or port_says_overflow(ctx, cf)) else "C03:cas-value"
             rep.violate("CAS: " + bad, key, {"stack": cf, "D": D2, "simplified": o2, "x": [float(v) for v in x]})
             break
     return changed
@@ -394,7 +406,7 @@ def cas_constants_oracle(ctx, rep, st, D, case):
         if bad is None:
             rep.count("cas_const_point", "agree")
         else:
-            rep.violate("CAS: " + bad, "C03:F3b-int64-wrap" if ovf else "C03:cas-value",
+            rep.violate("CAS: " + bad, "C03:F3b-int64-wrap" if (ovf or port_says_overflow(ctx, st)) else "C03:cas-value",
                         {**case, "x": x, "constants_by_row": dict(cvals)})
             break
 
